@@ -242,7 +242,8 @@ def putStringBytes (enc : Bool) (buf : Bytes) (s : Bytes) : PutRes :=
   truncated; Go multiplies in float64 first, which may round the 84-bit product to 53 bits before
   the truncation — that rounding (and `Frexp` / `Ldexp` themselves) is the declared trusted part;
   the codec engine checks on every double it sends that the `fracInt` on the wire is within 1 of
-  `encodeDbl`, which is the hypothesis `Near` the precision theorem is stated under. -/
+  `encodeDbl` — the hypothesis `NearN` (CedarProofs/CodecDouble.lean, on magnitudes) under which
+  the precision theorem `C14.double_precision` is stated. -/
 
 def twoPow53 : Nat := 9007199254740992
 
@@ -259,9 +260,5 @@ def dblVals (m e : Int) : List Val := [.int (encodeDbl m e).1, .int (encodeDbl m
 /-- `GetDouble`: the decoded value is `fi / FracConst · 2^ex`; as an exact rational it is the
     pair (numerator, denominator) scaled by `2^ex` -/
 def decodeDbl (fi ex : Int) : (Int × Nat) × Int := ((fi, fracConst), ex)
-
-/-- the `fracInt` a Go run put on the wire is within 1 of the exact truncated product
-    (`fi · 2^53` within `2^53` of `m · FracConst`) -/
-def Near (m fi : Int) : Prop := (fi * (twoPow53 : Int) - m * (fracConst : Int)).natAbs ≤ twoPow53
 
 end Cedar
